@@ -58,13 +58,44 @@ func dnsTypeIdx(t uint16) int {
 			return i
 		}
 	}
-	switch t {
-	case dnsmessage.TypeSVCB:
-		return 3
-	case dnsmessage.TypeHTTPS:
-		return 4
+	for i, x := range dnsOtherTypes {
+		if x == t {
+			return 3 + i
+		}
 	}
 	return -1
+}
+
+// dnsOtherTypes are the question types the "other type" (TXT) draws are spread
+// over — derived from op numbers, no extra tape draw. They come in pairs that a
+// type-to-key table could confuse: SVCB(64)/HTTPS(65), and types below 34 that are
+// not among the common ones (HINFO 13 / RP 17, NULL 10 / AFSDB 18).
+var dnsOtherTypes = []uint16{dnsmessage.TypeSVCB, dnsmessage.TypeHTTPS, dnsmessage.TypeHINFO, dnsmessage.TypeRP, dnsmessage.TypeNULL, dnsmessage.TypeAFSDB}
+
+func dnsPartnerType(t uint16) uint16 {
+	for i, x := range dnsOtherTypes {
+		if x == t {
+			return dnsOtherTypes[i^1]
+		}
+	}
+	return t
+}
+
+// spreadOtherType maps an "other type" draw (TXT) of op number idx onto TXT and
+// the pool above; a name that is cached under one type of a pair is asked for
+// under its partner.
+func (w *dnsWorld) spreadOtherType(name int, idx int) uint16 {
+	for _, t := range dnsOtherTypes {
+		if w.track != nil && w.track.entry(dnsKey{name: name, qtype: t, scope: w.keyOf(name, t).scope}) != nil {
+			if p := dnsPartnerType(t); w.track.entry(dnsKey{name: name, qtype: p, scope: w.keyOf(name, p).scope}) == nil {
+				return p
+			}
+		}
+	}
+	if r := idx % (len(dnsOtherTypes) + 2); r < len(dnsOtherTypes) {
+		return dnsOtherTypes[r]
+	}
+	return dnsmessage.TypeTXT
 }
 
 type dnsUp struct {
@@ -107,11 +138,11 @@ type dnsAns struct {
 	ver      int
 	rrs      []dnsmessage.RR // owner name is filled in per reply
 	ips      []netip.Addr    // all addresses listed (incl. shared / unspecified)
-	ttl      uint32 // lifetime of the answer as a whole: the MINIMUM TTL over its records
-	ttlMax   uint32 // largest TTL of a record (== ttl unless the answer mixes TTLs)
-	ttlFirst uint32 // TTL of the first record
-	repeats  int    // times the upstream sent this very answer again
-	mix      int    // 0 uniform TTLs, 1 CNAME (long TTL) first then short-lived addresses, 2 first address long-lived, the others short
+	ttl      uint32          // lifetime of the answer as a whole: the MINIMUM TTL over its records
+	ttlMax   uint32          // largest TTL of a record (== ttl unless the answer mixes TTLs)
+	ttlFirst uint32          // TTL of the first record
+	repeats  int             // times the upstream sent this very answer again
+	mix      int             // 0 uniform TTLs, 1 CNAME (long TTL) first then short-lived addresses, 2 first address long-lived, the others short
 	rcode    int
 	empty    bool
 	sentAt   time.Duration
@@ -122,27 +153,27 @@ type dnsAns struct {
 }
 
 type dnsUpQuery struct {
-	seq      int
-	up       int
-	tcp      bool
-	sock     *dnsSock
-	tc       *dnsTConn
-	wireId   uint16
-	qname    string
-	name     int
-	qtype    uint16
-	task     string
-	op       *dnsOp
-	chain    *dnsChain
-	at       time.Duration
-	step     int
-	raw      []byte
-	answered *dnsAns
-	reacted  bool
-	gaveUp   bool
+	seq       int
+	up        int
+	tcp       bool
+	sock      *dnsSock
+	tc        *dnsTConn
+	wireId    uint16
+	qname     string
+	name      int
+	qtype     uint16
+	task      string
+	op        *dnsOp
+	chain     *dnsChain
+	at        time.Duration
+	step      int
+	raw       []byte
+	answered  *dnsAns
+	reacted   bool
+	gaveUp    bool
 	notBefore time.Duration
-	defers   int
-	note     string
+	defers    int
+	note      string
 }
 
 func (q *dnsUpQuery) open() bool {
@@ -205,19 +236,19 @@ type dnsTConn struct {
 // forwarder shim: counts Close calls and in-flight ForwardDNS calls of every
 // real forwarder the controller creates.
 type dnsFwd struct {
-	w         *dnsWorld
-	id        int
-	real      DnsForwarder
-	up        string
-	l4        consts.L4ProtoStr
-	inFlight  int
-	closes    int
-	closedAt  time.Duration
-	begun     int
-	inFlightAtClose int
-	beganAfterClose int
+	w                    *dnsWorld
+	id                   int
+	real                 DnsForwarder
+	up                   string
+	l4                   consts.L4ProtoStr
+	inFlight             int
+	closes               int
+	closedAt             time.Duration
+	begun                int
+	inFlightAtClose      int
+	beganAfterClose      int
 	closedDuringShutdown bool
-	closer    string
+	closer               string
 }
 
 // closedBy names the path that closed the forwarder (class of the lifetime rules).
@@ -262,31 +293,31 @@ func (f *dnsFwd) Close() error {
 }
 
 type dnsOp struct {
-	cli      int
-	idx      int
-	name     int
-	qname    string
-	qtype    uint16
-	id       uint16
-	viaUDP   bool
-	key      dnsKey
-	gen      int
-	genEnd   int
-	task     string
-	start    time.Duration
-	end      time.Duration
-	startStep int
-	endStep  int
-	done     bool
-	err      error
-	replies  []*dnsmessage.Msg
-	chain    *dnsChain // upstream queries issued by this op's own task
+	cli            int
+	idx            int
+	name           int
+	qname          string
+	qtype          uint16
+	id             uint16
+	viaUDP         bool
+	key            dnsKey
+	gen            int
+	genEnd         int
+	task           string
+	start          time.Duration
+	end            time.Duration
+	startStep      int
+	endStep        int
+	done           bool
+	err            error
+	replies        []*dnsmessage.Msg
+	chain          *dnsChain // upstream queries issued by this op's own task
 	refreshSpawned bool
-	expectReject bool
-	useUncertain bool         // the op's lookup overlapped a replacement of its key's entry
-	pre          *dnsEntryObs // entry cached under the op's key when the op began
-	reloadOverlap int
-	rs           *dnsRuleSet // rules in force when the op began
+	expectReject   bool
+	useUncertain   bool         // the op's lookup overlapped a replacement of its key's entry
+	pre            *dnsEntryObs // entry cached under the op's key when the op began
+	reloadOverlap  int
+	rs             *dnsRuleSet // rules in force when the op began
 }
 
 type dnsCfg struct {
@@ -325,54 +356,58 @@ type dnsWorld struct {
 	dialers []*componentdialer.Dialer
 	closing bool
 
-	seq     int
-	socks   []*dnsSock
-	tconns  []*dnsTConn
-	pend    []*dnsUpQuery
-	ghosts  []*dnsGhost
-	qlog    []*dnsUpQuery
-	sent    []*dnsSent
-	answers []*dnsAns
-	vers    map[[3]int]int
-	fwds    []*dnsFwd
-	curFwd  map[string]*dnsFwd   // forwarder whose ForwardDNS runs on a task
-	evictCause map[*DnsCache]string
-	entryBitmap map[*DnsCache][]uint32 // domain-rule bitmap in force when the entry was created / restored
-	focus      *dnsEntryObs            // entry the last pause was placed relative to
-	bitmapGen  int                     // generation of the name -> bitmap table (changes at reloads in C10 mode)
+	seq           int
+	socks         []*dnsSock
+	tconns        []*dnsTConn
+	pend          []*dnsUpQuery
+	ghosts        []*dnsGhost
+	qlog          []*dnsUpQuery
+	sent          []*dnsSent
+	answers       []*dnsAns
+	vers          map[[3]int]int
+	fwds          []*dnsFwd
+	curFwd        map[string]*dnsFwd // forwarder whose ForwardDNS runs on a task
+	evictCause    map[*DnsCache]string
+	entryBitmap   map[*DnsCache][]uint32 // domain-rule bitmap in force when the entry was created / restored
+	focus         *dnsEntryObs           // entry the last pause was placed relative to
+	bitmapGen     int                    // generation of the name -> bitmap table (changes at reloads in C10 mode)
 	overlapZeroed map[string]bool
-	lastAns    map[[3]int]*dnsAns      // last right answer per (upstream, name, type)
-	chains  map[string]*dnsChain // current chain per task
-	allChains []*dnsChain
+	lastAns       map[[3]int]*dnsAns   // last right answer per (upstream, name, type)
+	chains        map[string]*dnsChain // current chain per task
+	allChains     []*dnsChain
 
-	ops       []*dnsOp
-	curOp     map[string]*dnsOp // task name -> op in progress
-	cliAddr   []netip.AddrPort
-	opsDone   int
-	opsTotal  int
-	envBudget int
-	envTasks  int
-	reloads   int
-	fwdsAtReset int
+	ops          []*dnsOp
+	curOp        map[string]*dnsOp // task name -> op in progress
+	cliAddr      []netip.AddrPort
+	opsDone      int
+	opsTotal     int
+	envBudget    int
+	envTasks     int
+	reloads      int
+	fwdsAtReset  int
 	hostResolves int
-	lruBatch  []*dnsEntryObs
-	lruBefore int
-	lruAt     time.Duration
-	lruStep   int
-	lruBusy   bool
-	maxCount  int
+	lruBatch     []*dnsEntryObs
+	lruBefore    int
+	lruAt        time.Duration
+	lruStep      int
+	lruBusy      bool
+	maxCount     int
 
 	// cache observation (ground truth of what the controller holds)
-	track     *dnsCacheTrack
-	kern      *dnsKernMap
-	c18       *dnsC18
+	track       *dnsCacheTrack
+	kern        *dnsKernMap
+	liveWrapped map[*DnsCache]bool
+	nCliConns   int // client TCP connections to the DNS fast path opened so far
+	liveLooks   int
+	newCtl      *DnsController // the controller of the generation being built by a reload (afterwards == ctl)
+	c18         *dnsC18
 }
 
 func dnsNewWorld(s *verifsim.Sim, mode int) *dnsWorld {
 	logger := logrus.New()
 	logger.SetOutput(io.Discard)
 	w := &dnsWorld{s: s, T: s.T, mode: mode, log: logger, spec: map[[3]int]dnsAnsSpec{}, vers: map[[3]int]int{},
-		chains: map[string]*dnsChain{}, curOp: map[string]*dnsOp{}, curFwd: map[string]*dnsFwd{}, evictCause: map[*DnsCache]string{}, entryBitmap: map[*DnsCache][]uint32{}, lastAns: map[[3]int]*dnsAns{}, overlapZeroed: map[string]bool{}}
+		chains: map[string]*dnsChain{}, curOp: map[string]*dnsOp{}, curFwd: map[string]*dnsFwd{}, evictCause: map[*DnsCache]string{}, entryBitmap: map[*DnsCache][]uint32{}, liveWrapped: map[*DnsCache]bool{}, lastAns: map[[3]int]*dnsAns{}, overlapZeroed: map[string]bool{}}
 	w.asis = netip.MustParseAddrPort("10.9.9.9:53")
 	return w
 }
@@ -469,6 +504,22 @@ func (w *dnsWorld) newAnswer(up, name int, qtype uint16) *dnsAns {
 	if w.mode == dnsModeC09 && qtype == dnsmessage.TypeAAAA && name%2 == 1 {
 		sp.special = 1 // a v4-only host: AAAA is answered NODATA (empty answer section, NOERROR)
 	}
+	if w.mode == dnsModeC07 && (up+name+dnsTypeIdx(qtype)+ver)%5 == 4 {
+		// a negative answer (no records): response routing applies to it like to any other answer
+		a.rcode = []int{dnsmessage.RcodeNameError, dnsmessage.RcodeRefused, dnsmessage.RcodeServerFailure}[ver%3]
+		a.empty = true
+		a.mix = 0
+		w.s.Probe("dns.c07-negative-answer")
+		return a
+	}
+	// a large record set (C09 mode, TXT and HINFO of every other (upstream, name)):
+	// the packed reply exceeds 1024 bytes and still fits one datagram
+	large := 0
+	if w.mode == dnsModeC09 && (up+name)%2 == 0 && (qtype == dnsmessage.TypeTXT || qtype == dnsmessage.TypeHINFO) {
+		large = 5
+		w.s.Probe("dns.large-answer")
+	}
+	pad := func(i int) string { return strings.Repeat(string(rune('a'+(a.id+i)%26)), 220) }
 	switch qtype {
 	case dnsmessage.TypeA:
 		if sp.special == 1 {
@@ -517,8 +568,22 @@ func (w *dnsWorld) newAnswer(up, name int, qtype uint16) *dnsAns {
 		a.rrs = append(a.rrs, &dnsmessage.SVCB{Hdr: hdr(dnsmessage.TypeSVCB), Priority: uint16(a.id), Target: "svc." + dnsAllNames[name] + "."})
 	case dnsmessage.TypeHTTPS:
 		a.rrs = append(a.rrs, &dnsmessage.HTTPS{SVCB: dnsmessage.SVCB{Hdr: hdr(dnsmessage.TypeHTTPS), Priority: uint16(a.id), Target: "svc." + dnsAllNames[name] + "."}})
+	case dnsmessage.TypeHINFO:
+		for i := 0; i < 1+large; i++ {
+			a.rrs = append(a.rrs, &dnsmessage.HINFO{Hdr: hdr(dnsmessage.TypeHINFO), Cpu: fmt.Sprintf("ans=%d", a.id), Os: "sim" + pad(i)})
+		}
+	case dnsmessage.TypeRP:
+		a.rrs = append(a.rrs, &dnsmessage.RP{Hdr: hdr(dnsmessage.TypeRP), Mbox: fmt.Sprintf("ans-%d.rp.", a.id), Txt: "."})
+	case dnsmessage.TypeNULL:
+		a.rrs = append(a.rrs, &dnsmessage.NULL{Hdr: hdr(dnsmessage.TypeNULL), Data: fmt.Sprintf("ans=%d", a.id)})
+	case dnsmessage.TypeAFSDB:
+		a.rrs = append(a.rrs, &dnsmessage.AFSDB{Hdr: hdr(dnsmessage.TypeAFSDB), Subtype: uint16(a.id), Hostname: "afs." + dnsAllNames[name] + "."})
 	default:
-		a.rrs = append(a.rrs, &dnsmessage.TXT{Hdr: hdr(dnsmessage.TypeTXT), Txt: []string{fmt.Sprintf("ans=%d", a.id)}})
+		txt := []string{fmt.Sprintf("ans=%d", a.id)}
+		for i := 0; i < large; i++ {
+			txt = append(txt, pad(i))
+		}
+		a.rrs = append(a.rrs, &dnsmessage.TXT{Hdr: hdr(dnsmessage.TypeTXT), Txt: txt})
 	}
 	return a
 }
@@ -596,6 +661,26 @@ func (w *dnsWorld) decodeAnswers(rrs []dnsmessage.RR) (ids []int, ips []netip.Ad
 			id = int(x.Priority)
 		case *dnsmessage.HTTPS:
 			id = int(x.Priority)
+		case *dnsmessage.AFSDB:
+			id = int(x.Subtype)
+		case *dnsmessage.HINFO:
+			if n := 0; true {
+				if _, err := fmt.Sscanf(x.Cpu, "ans=%d", &n); err == nil {
+					id = n
+				}
+			}
+		case *dnsmessage.NULL:
+			if n := 0; true {
+				if _, err := fmt.Sscanf(x.Data, "ans=%d", &n); err == nil {
+					id = n
+				}
+			}
+		case *dnsmessage.RP:
+			if n := 0; true {
+				if _, err := fmt.Sscanf(x.Mbox, "ans-%d.rp.", &n); err == nil {
+					id = n
+				}
+			}
 		case *dnsmessage.TXT:
 			for _, t := range x.Txt {
 				var n int
@@ -764,11 +849,31 @@ func (w *dnsWorld) makeDialers(n int) {
 	}
 }
 
+// reaskHop: a query (or dial) to upstream up by the task of chain ch comes after
+// an answered query of that chain to another upstream, i.e. it is a re-ask.
+func (w *dnsWorld) reaskHop(ch *dnsChain, up int, self *dnsUpQuery) bool {
+	if ch == nil {
+		return false
+	}
+	for _, p := range ch.queries {
+		if p != self && p.answered != nil && p.up != up {
+			return true
+		}
+	}
+	return false
+}
+
 func (w *dnsWorld) planDial(di int, network, addr string) verifsim.DialPlan {
 	s, T := w.s, w.T
 	up := w.upByAddr(addr)
 	if up < 0 {
 		s.Failf("harness-dns", "dial to unknown address %s (%s)", addr, network)
+		return verifsim.DialPlan{Err: verifsim.ErrSimRefused}
+	}
+	if w.mode == dnsModeC07 && (len(w.qlog)+di)%3 == 0 && w.reaskHop(w.chains[verifsim.TaskName()], up, nil) {
+		// the upstream an answer was sent on to cannot be reached (derived, no draw)
+		s.Probe("dns.c07-reask-upstream-fails")
+		s.Notef("dial %s %s via d%d: refused (upstream of a re-ask)", network, addr, di)
 		return verifsim.DialPlan{Err: verifsim.ErrSimRefused}
 	}
 	plan := verifsim.DialPlan{}
@@ -963,6 +1068,11 @@ func (w *dnsWorld) react(q *dnsUpQuery) {
 	if kind != 0 {
 		w.envBudget--
 	}
+	if w.mode == dnsModeC07 && kind == 0 && q.name >= 0 && q.seq%3 == 0 && w.reaskHop(q.chain, q.up, q) {
+		// the upstream an answer was sent on to fails quickly (derived, no draw)
+		kind = 8
+		s.Probe("dns.c07-reask-upstream-fails")
+	}
 	right := func() *dnsAns {
 		a := w.nextAnswer(q.up, q.name, q.qtype)
 		a.forQuery, a.chain = q, q.chain
@@ -1127,6 +1237,9 @@ func (w *dnsWorld) installUpstreamEvents() {
 
 // pendingWork: an upstream reaction or copy is still outstanding on an open transport.
 func (w *dnsWorld) pendingWork() bool {
+	if w.kern != nil && (w.kern.inCallback > 0 || w.kern.inSync > 0) {
+		return true // a cache side-effect callback (domain routing sync) is running
+	}
 	for _, q := range w.pend {
 		if !q.reacted && q.open() {
 			return true
@@ -1203,6 +1316,20 @@ func (w *dnsWorld) chooseDialer(ctx context.Context, req *udpRequest, upstream *
 		bestTarget: netip.AddrPortFrom(addr, upstream.Port)}, nil
 }
 
+// cachedUnder: the entry the (newest) controller holds under a raw cache key.
+func (w *dnsWorld) cachedUnder(raw string) *DnsCache {
+	ctl := w.ctl
+	if w.newCtl != nil {
+		ctl = w.newCtl
+	}
+	if ctl == nil {
+		return nil
+	}
+	v, _ := ctl.dnsCache.Load(raw)
+	c, _ := v.(*DnsCache)
+	return c
+}
+
 func (w *dnsWorld) controllerOption() *DnsControllerOption {
 	opt := w.plane.dnsControllerOption()
 	opt.OptimisticCache = w.cfg.optimistic
@@ -1224,7 +1351,63 @@ func (w *dnsWorld) controllerOption() *DnsControllerOption {
 	prod := opt.CacheDeleteCallback
 	opt.CacheDeleteCallback = func(k string, c *DnsCache) error {
 		w.evictCause[c] = dnsEvictionPath()
-		return prod(k, c)
+		if w.kern != nil {
+			delete(w.kern.batchKeys, verifsim.TaskName())
+		}
+		if w.kern != nil {
+			w.kern.inCallback++
+		}
+		err := prod(k, c)
+		if w.kern != nil {
+			w.kern.inCallback--
+		}
+		if w.kern != nil && c != nil {
+			w.kern.syncDone(k, c, true, err)
+		}
+		return err
+	}
+	prodAccess := opt.CacheAccessCallback
+	opt.CacheAccessCallback = func(c *DnsCache) error {
+		async := dnsCallerHas("processBpfUpdateTask")
+		before := w.cachedUnder(c.RouteOwnerKey)
+		if w.kern != nil {
+			delete(w.kern.batchKeys, verifsim.TaskName())
+		}
+		if w.mode == dnsModeC10 && c.routeLive != nil && !w.liveWrapped[c] {
+			// A goroutine may be preempted right after it has looked whether its entry is
+			// still the cached one: every third such look is followed by a short pause
+			// (1 ms of simulated time; derived from a counter, no draw), the others by a
+			// plain scheduling point.
+			w.liveWrapped[c] = true
+			orig := c.routeLive
+			c.routeLive = func() bool {
+				r := orig()
+				w.liveLooks++
+				if w.liveLooks%3 == 0 {
+					w.kern.inSync++
+					time.Sleep(time.Millisecond)
+					verifsim.YieldB("preempted-after-liveness-look")
+					w.kern.inSync--
+				} else {
+					verifsim.Yield("after-liveness-look")
+				}
+				return r
+			}
+		}
+		if w.kern != nil {
+			w.kern.inCallback++
+		}
+		err := prodAccess(c)
+		if w.kern != nil {
+			w.kern.inCallback--
+		}
+		if after := w.cachedUnder(c.RouteOwnerKey); async && before == c && after != c {
+			w.s.Probe("dns.c10-async-update-overtaken-by-replacement-or-eviction")
+		}
+		if w.kern != nil && c != nil {
+			w.kern.syncDone(c.RouteOwnerKey, c, false, err)
+		}
+		return err
 	}
 	return opt
 }
@@ -1330,6 +1513,9 @@ func dnsAnsIDs(ids []int) string {
 
 func (w *dnsWorld) installSendHook() {
 	verifDnsSendPktHook = func(data []byte, from, to netip.AddrPort) error {
+		// the datagram leaves when sendmsg runs, not when the caller prepared the
+		// bytes: a scheduling point before the bytes are looked at
+		verifsim.Yield("client-udp-sendmsg")
 		for ci, a := range w.cliAddr {
 			if a == to {
 				for _, op := range w.ops {
